@@ -5,8 +5,8 @@
 (* key order, so every bag is reached exactly once); every graph is printed    *)
 (* as one script in that order and once more with the relationships in the     *)
 (* opposite order (insertion order is an implementation-level dimension:       *)
-(* adjacency lists keep it).  Runs for N = 1..4 cover "all graphs up to 4      *)
-(* nodes".  The same graphs serve every algorithm.                             *)
+(* adjacency lists keep it; EmitAlt prints one of the two).  Ns within 1..4       *)
+(* covers "all graphs up to 4 nodes".  The same graphs serve every algorithm.  *)
 (* Design-level checks (the definitions of Algo.tla against each other and     *)
 (* the lemmas the trace specification relies on) are invariants evaluated on   *)
 (* every complete graph.                                                       *)
